@@ -606,4 +606,9 @@ def units(tier):
     from . import c01
     fr = c01.ReadFrame()
     fr.prop, fr.name = 'C10', 'C10.frames-after-set-compression'
-    return [EncStep(), SimpleSteps(), DisconnectStep(), fr, LoginTables()]
+    from . import c11
+    rl = c11.RunLoop()
+    # "switches both directions to encrypted immediately": the networking thread must take the reactor and the file object
+    # from the connection at EVERY read, because the encryption step replaces them in the middle of a read batch
+    rl.prop, rl.name = 'C10', 'C10.reads-through-current-transport'
+    return [EncStep(), SimpleSteps(), DisconnectStep(), fr, LoginTables(), rl]
